@@ -844,6 +844,43 @@ func JudgeSsim(r *Run) *Judged {
 			}
 		}
 	}
+	// "Delete removes only that key": a key nobody deletes does not disappear. Operation timeouts are allowed here
+	// (a Set that gave up may or may not take effect - it never takes an acknowledged value away); kills, disk
+	// faults and modification at rest are not.
+	if !firedPrefix(r.Faults, "disk.") && !firedPrefix(r.Faults, "config.") && r.Crashes == 0 {
+		plain := true
+		deleted := map[string]bool{}
+		for _, h := range r.SHists {
+			switch h.Op.Kind {
+			case "set", "set-mutate", "set-same", "get", "get-mutate", "keys", "reopen", "api-get", "api-list":
+			case "delete", "api-delete":
+				deleted[h.Key] = true
+			default:
+				plain = false
+			}
+		}
+		for _, h := range r.SHists {
+			if !plain || (h.Op.Kind != "get" && h.Op.Kind != "get-mutate") || h.Ret == 0 || h.API || deleted[h.Key] {
+				continue
+			}
+			j.count("C14", "key-vanished")
+			if !h.NotEx {
+				continue
+			}
+			for _, w := range r.SHists {
+				if w.Key == h.Key && strings.HasPrefix(w.Op.Kind, "set") && w.OK && w.Ret != 0 && w.Ret < h.Inv {
+					sig := "sequential"
+					if r.Faults["store.op-timeout"] > 0 {
+						sig = "after-timeout"
+					} else if conc {
+						sig = "concurrent"
+					}
+					vfail("C14", "key-vanished", sig, h, "Get of key %q reports not-exist although a Set of it had succeeded before (seq %d) and nothing ever deleted it", clip(h.Key), w.Ret)
+					break
+				}
+			}
+		}
+	}
 	if r.Scn.Backend != "mem" || conc {
 		judgeLinearizable(r, j, vfail)
 	}
@@ -932,6 +969,12 @@ func judgeRecovered(r *Run, j *Judged, vfail func(prop, rule, sig string, h *SHi
 		}
 	}
 	if r.faultInPhase2 {
+		return
+	}
+	if r.Scn.FsTimeoutNs > 0 {
+		// a backend operation timeout shorter than the scheduler's stalls (profile atomic only): operations of
+		// the first phase that gave up may still land during the second, and its own calls may give up - the
+		// premise "one sequential client on a quiet directory" does not hold
 		return
 	}
 	table := map[string]bool{}
